@@ -22,6 +22,19 @@ type TypedAsmCase struct {
 	Ok    bool            `json:"ok"`
 	Tv    model.Value     `json:"tv"`
 	Repr  model.Value     `json:"repr"`
+	// which style of refusing a repeated key in a typed-map frame the behaviour contains (Assembler!DeferredDupNext):
+	// at the key (bindnode), or through the assembler handed out for the value (generated code)
+	Early bool `json:"early"`
+	Late  bool `json:"late"`
+}
+
+// ForEngine says whether an engine is replayed on the behaviour: each engine is held to its own style of
+// refusing a repeated key in a typed map.
+func (cs *TypedAsmCase) ForEngine(eng Engine) bool {
+	if eng.Name == "gengo" {
+		return !cs.Early
+	}
+	return !cs.Late
 }
 
 // typedViews compares both views of a typed node with the specified typed value and its representation.
@@ -98,9 +111,7 @@ func ReplayTypedAsm(cs *TypedAsmCase, eng Engine, secondary bool) ([]*run.Findin
 		}
 		return f, 2
 	}
-	// Generated typed maps take their keys through the key TYPE's own assembler (the arrangement that serves complex
-	// keys), so the map can notice a repeated key only at its next call: late refusal is accepted from that engine.
-	f, checks := replayAsmStepsOpt(cs.Steps, nb, target, model.Conc{}, onBuild, nil, eng.Name == "gengo")
+	f, checks := replayAsmSteps(cs.Steps, nb, target, model.Conc{}, onBuild, nil)
 	if f != nil {
 		if f.Step >= 0 && f.Step < len(cs.Ft) {
 			f.Detail = fmt.Sprintf("call made in a %s frame: %s", cs.Ft[f.Step], f.Detail)
